@@ -642,6 +642,10 @@ func (c *c17Case) encrypt(t *rapid.T, ver int, ctx, ad, pt, nonce []byte, keep b
 					}
 					if sameKey && sameNonceIn {
 						c.rec.Class("enc:convergent-repeat", 1)
+						if !bytes.Equal(x.ad, ad) && len(xraw) >= ns && bytes.Equal(xraw[:ns], raw[:ns]) {
+							// not part of the property: the convergent nonce does not depend on the associated data
+							c.rec.Class("obs:convergent-nonce-shared-across-associated-data", 1)
+						}
 					}
 				} else {
 					if x.text == ct {
@@ -892,6 +896,7 @@ func (c *c17Case) actDecryptMutated(t *rapid.T) {
 		if !mayEqual {
 			c.viol(t, "mutation-accepted:"+mk, "mutation %s of a version %d ciphertext was accepted (input %s, context %x, associated data %x)", mk, e.ver, verifx.Trunc(text, 48), ctx, ad)
 		}
+		c.rec.Class("obs:accepted-"+mk, 1)
 		if !origOK {
 			c.viol(t, "decrypt-unusable-version-accepted", "respelled version prefix (%s) made an unusable version %d ciphertext decryptable (latest %d, min_decryption_version %d)", mk, e.ver, c.m.latest, c.m.minDec)
 		}
@@ -1474,7 +1479,11 @@ func TestVerif_C17_Policy(t *testing.T) {
 		c.adPool = [][]byte{c17Bytes(rt, "ad", 1, 12), c17Bytes(rt, "ad", 1, 40)}
 		c.ptPool = [][]byte{c17Bytes(rt, "pt", 1, 24), c17Bytes(rt, "pt", 1, 24), c17Bytes(rt, "pt", 0, 40)}
 
-		lm, err := NewLockManager(c.useCache, 0)
+		cacheSize := 0
+		if c.useCache && rapid.Bool().Draw(rt, "lruCache") {
+			cacheSize = 10
+		}
+		lm, err := NewLockManager(c.useCache, cacheSize)
 		if err != nil {
 			rt.Fatalf("harness: NewLockManager: %v", err)
 		}
